@@ -337,7 +337,7 @@ func reportViolation(t *testing.T, sc *Scenario, res *RunResult, v Violation, ti
 	budget := 45 * time.Second
 	maxCand := 6000
 	if tier == "quick" {
-		budget = 15 * time.Second
+		budget = 6 * time.Second
 		maxCand = 3000
 	}
 	isRace := strings.HasPrefix(v.Sig, "RACE")
